@@ -319,6 +319,10 @@ class Generator:
             o = l[0]
             sig, body = R.const_to_fn(o.tokens, o.impl is not None, log)
             impl, modpath = o.impl, o.modpath
+        if 'r15' in e.opts:
+            if e.kind != 'fn' or impl is None or ' for ' not in impl:
+                raise R.Unsupported('R15 applies to methods of a trait impl only')
+            sig, body, impl = R.r15_rng(sig, body, impl, self.x.impl_types.get(impl, []), log)
         self_is_bnum = impl is not None and self.x.impl_self(impl) in R.BNUM_TYPES
         sig, body = R.r4_r5_params(sig, body, log) if e.kind == 'fn' else (sig, body)
         toks = sig + body
